@@ -465,6 +465,8 @@ pub fn run(ctx: &Ctx, rep: &Report) -> Meta {
         let h = &hs[if c.suite == SuiteId::Sha256 { 0 } else { 1 }];
         with_suite!(c.suite, CS => json_case::<CS>(rep, "json", h, c))
     });
+    // the byte-level entry function of the libFuzzer target, in-process: seed corpus + random bytes
+    crate::fuzzdrv::smoke(ctx, rep, "c08_robust", "byte-level-entry", ctx.tier.pick(6000, 60000));
     if ctx.tier == Tier::Thorough && !rep.aborted() {
         crate::fuzzdrv::run_campaign(ctx, rep, "c08_robust", "libfuzzer-structured");
     }
@@ -506,6 +508,6 @@ pub fn replay(_ctx: &Ctx, rep: &Report, ck: &str, case: &Value) -> CheckResult {
             }
             Ok(())
         }
-        _ => crate::fuzzdrv::replay_input(rep, ck, case),
+        _ => crate::fuzzdrv::replay_input(rep, ck, &case.get("input").cloned().filter(|v| v.get("input_hex").is_some()).unwrap_or(case.clone())),
     }
 }
